@@ -13,12 +13,30 @@
       debt ([C10_fallback_guard_is_owned]);
     - over all schedules: a node's slots are written with new debts only by the node's single
       holder ([C11_exclusive]); a load is wait-free for any number of guards held ([C08]).
-    NOT yet proved (partial): "keeps denoting the very same VALUE" (the pointee stays alive and
+    Beyond these step theorems (see END-TO-END below for what is now proved over all schedules): "keeps denoting the very same VALUE" (the pointee stays alive and
     the address is not reused while the guard exists) is C01's protection invariant, in
     progress.  Checked on every run by the correspondence oracle: identity (object id, not
     address) seen through each guard at creation and at drop, on programs that move guards
-    between threads, drop them after the creator exited and after the container is gone. *)
-From ASModel Require Import Base State Orderings_gen Step Run Progress Hist Local.
+    between threads, drop them after the creator exited and after the container is gone. 
+    END-TO-END ([ASModel.Main], all schedules, any number of threads): the theorems below hold for
+    every run from an initial configuration that satisfies [RunOK]: initial values are null or
+    valid addresses; no program calls the verification hook [set_generation] or uses Cache; in
+    every state of the run no generation counter is within 4 of wrapping ([GenBound]: a wrap needs
+    2^62 fallback loads of one thread; the wrap itself is C13), a command's destination handle is
+    empty and the source of a running clone is not dropped (conditions on the TEST PROGRAM, met by
+    every generated program: the model driver checks them on every run and the evidence counts the
+    runs inside this scope); the allocator hands out addresses that are not live, not null and not
+    the empty-slot marker.  The proof is an inductive invariant [Master] made of: node ownership
+    and per-program-point assertions (WF2), reservation counting and generation uniqueness
+    (GenInv), envelope exclusivity (EnvInv), exact accounting (AccInv), slot coverage (ProtInv'),
+    stack typing, and "no thread has faulted", each preserved by every step ([step_Master]).
+    [C10_guard_keeps_value]: in every state of such a run the value a guard or an owned handle
+    refers to is alive; [C10_guard_keeps_identity]: across every step that leaves the handle in
+    place, the object at that address is the same object (not destroyed, address not reused).
+*)
+From ASModel Require Import Base State Orderings_gen Step Run Progress Hist Local Inv InvTl InvProto InvStep Sum StepCases.
+From ASModel Require Import GenDefs Gen1 Gen2 Gen EnvDefs Env4 Env AccDefs Acc1 Acc2 Acc3 Acc4 Acc5 Acc6 Acc7 Acc.
+From ASModel Require Import ProtDefs Prot1 Prot11 Prot16 Prot Typed LinDefs Lin2 Lin Safe1 Safe2 Safe7 Safe8 Safe Main.
 
 Theorem C10_drop_anywhere : forall cf s l l2 v sl x,
   fst (fst (fst (exec cf s l (GD1 v sl) x))) = fst (fst (fst (exec cf s l2 (GD1 v sl) x))) /\
@@ -53,8 +71,27 @@ Theorem C10_fallback_guard_is_owned : forall l v,
   match snd (with_exit l (RGuard v None)) with NRet r' => r' = RGuard v None | NPush _ (WExit r') => r' = RGuard v None | _ => False end.
 Proof. intros. apply with_exit_value. Qed.
 
+Theorem C10_guard_keeps_value : forall s h a,
+  Master s -> (hnd s h = HOwned a \/ exists d, hnd s h = HGuard a d) -> valid a ->
+  heap (sh s) a <> None.
+Proof. exact Main.C10_guard_keeps_value. Qed.
+
+Theorem C10_guard_keeps_identity : forall cf s t x h a,
+  GenBound s -> ProgOK s -> alloc_ok s t x -> Master s ->
+  (hnd s h = HOwned a \/ exists d, hnd s h = HGuard a d) -> valid a ->
+  hnd (fst (step cf s t x)) h = hnd s h ->
+  heap (sh (fst (step cf s t x))) a = heap (sh s) a /\ heap (sh s) a <> None.
+Proof. exact Main.C10_guard_keeps_identity. Qed.
+
+Theorem C10_every_state_of_a_run : forall cf inits progs sched,
+  RunOK cf inits progs sched -> forall k, Master (St cf (init_state inits progs) sched k).
+Proof. exact RunOK_Master. Qed.
+
 Print Assumptions C10_drop_anywhere.
 Print Assumptions C10_guard_drop.
 Print Assumptions C10_guard_into.
 Print Assumptions C10_handles_stable.
 Print Assumptions C10_fallback_guard_is_owned.
+Print Assumptions C10_guard_keeps_value.
+Print Assumptions C10_guard_keeps_identity.
+Print Assumptions C10_every_state_of_a_run.
